@@ -54,6 +54,11 @@ EDGE_TEXTS = [
     # a division by a negated chain / product (rewrites inside the negation, then the division itself)
     "x / -(a * b * c)", "y / -(a + b + c)", "y / -(x * (a + b))", "(x + 1) / -(2y * z * w)", "4 / -((a * b) * c)", "x / -(2a + 3a)", "1 / -(x * x)", "-(a + b + c) / -(a * b)",
     "sgn(a + b + c) + 1", "-(a * b * c) * x", "(a + b + c)!" if False else "-(2x + 3x + y)",
+    # texts the documented grammar does NOT derive (an equation inside a group): a parser that accepts
+    # them hands the rules trees they were never written for; on the pinned parser they are simply skipped
+    "-(3 = 2)", "2(x = 3)", "7 - (1 + 1 = 3)", "-(x = 3)", "sgn(2 = 3)", "(4 = 5)^2", "-(2 + 2 = 5) + x",
+    # (const + non-const) times a product that starts with a variable; like terms with a common fraction and an exponent
+    "xy(2 + k) = 24", "(2 + k) * (x * y)", "x^2 * (3 + y) = 12", "(4 + z)(x * y) = 8", "(2 + k)(x^2 * y) + 1", "0.5x^2 + 0.5x^2", "y + (0.25x^3 + 0.25x^3)", "0.5x^-1 + 0.5x^-1",
     # unlike variables with a common fractional coefficient AND equal explicit exponents
     "0.5x^2 + 0.5y^2", "z + (0.25x^3 + 0.25y^3)", "0.5x^2 + 0.5y^2 + 0.5z^2", "0.1x^-1 + 0.1y^-1",
     # a power of a power (even inner exponent, fractional outer one: sqrt of a square is |x|, not x)
@@ -100,9 +105,17 @@ def long_texts():
     out.append(" * ".join(f"{(i % 3) + 2}x" for i in range(34)))
     out.append(" - ".join(f"{i + 1}y" for i in range(70)))
     out.append("(" * 30 + "x" + " + 1)" * 30)
+
     out.append("-(" * 30 + "x" + ")" * 30)
     out.append(" + ".join(f"{i + 1}x" for i in range(101)) + " = " + " + ".join(f"{i + 2}y" for i in range(33)))
     return out
+
+
+def huge_token_texts():
+    """single tokens far longer than any buffer size, not at the start of the text (parser and
+    tokenizer checks only: a 600-letter run is a product chain 600 levels deep)"""
+    return ["x + " + "7" * 600, "2 * 0." + "3" * 700 + " + y", "(y - 1) * (" + "12345678" * 140 + ")", "2" + "a" * 512 + "sgn(0 - 3)",
+            "4 + " + "xyz" * 200 + " - 1", "1 + " + "9" * 513 + " * x", "x^" + "2" * 520 + " + 1" if False else "3 * " + "8" * 1025]
 
 
 def required_apply_arms(minimum=3, rules=None):
